@@ -27,7 +27,7 @@ package broker
 //@   ensures [C26.inet6_short_rejected] len(payload) < 36 ==> err != nil && result0 == nil
 //@
 //@ func readProxyV1Line
-//@   ensures [C26.v1_line_consumed] err == nil ==> brPos(br) > old(brPos(br)) && brPos(br) - old(brPos(br)) <= 256 && brPos(br) - old(brPos(br)) == len(result0) && brAt(br, brPos(br) - 1) == 10
+//@   ensures [C26.v1_line_consumed] err == nil ==> brPos(br) > old(brPos(br)) && brPos(br) - old(brPos(br)) <= ite(maxLen <= 0, 256, maxLen) && brPos(br) - old(brPos(br)) == len(result0) && brAt(br, brPos(br) - 1) == 10
 //@   ensures [C26.v1_line_first_newline] err == nil ==> forall i int :: old(brPos(br)) <= i && i < brPos(br) - 1 ==> brAt(br, i) != 10
 //@   loop 1 invariant brPos(br) == old(brPos(br)) + len(buf) && len(buf) <= maxLen && cap(buf) >= maxLen && maxLen >= 1
 //@   loop 1 invariant forall i int :: old(brPos(br)) <= i && i < brPos(br) ==> brAt(br, i) != 10
